@@ -312,6 +312,7 @@ def run(seed, tier, driver):
     two_sessions(driver, res, r, tier)
     after_the_end(driver, res, r, tier)
     slow_peer(driver, res, r, tier)
+    late_loss(driver, res, r, tier)
     handler_faults(res, r, tier)
     shipped_handler(res, r, tier)
     octet_tables(driver, res, r, tier)
@@ -436,6 +437,68 @@ def slow_peer(driver, res, r, tier):
                             p.step({'k': 'lost', 'c': pend[-1]})
                 res.stats.case(('slow-peer', jdump(conf), nretry, stop_first), sample=None)
                 res.stats.hit('slow_peer')
+
+
+def late_loss(driver, res, r, tier):
+    """The reactor reports the loss of an OLD connection late: the agent has closed connection 0 (operator stop, or a Cease
+    from the peer), a new attempt is already in flight (operator start, or the idle-hold restart) when connectionLost for
+    connection 0 is delivered; then the operator stops the peer, and only then the attempt in flight is answered.  Lockstep
+    with the model; the Monitor judges C13 (nothing is sent or connected after the stop) and C12 on every step."""
+    for conf in ({}, {'idle_hold_time': 0, 'connect_retry_time': 8}, {'hold_time': 9, 'connect_retry_time': 45, 'idle_hold_time': 5}):
+        full = dict(S.DEFAULT_CFG); full.update(conf)
+        pool = dict(SG.message_pool(full['remote_as']))
+        for ending in ('stop+start', 'cease+idlehold', 'cease+start'):
+            for second_stop in (True, False):
+                p = Pair(conf, driver, res)
+                for ev in ({'k': 'boot'}, {'k': 'connok', 'c': 0}, {'k': 'chunk', 'c': 0, 'hex': pool['open_ok'].hex()},
+                           {'k': 'chunk', 'c': 0, 'hex': SG.KEEPALIVE.hex()}):
+                    p.step(ev)
+                if ending == 'stop+start':
+                    p.step({'k': 'stop'})
+                    p.step({'k': 'start'})
+                else:
+                    p.step({'k': 'chunk', 'c': 0, 'hex': pool['notif_cease'].hex()})
+                    if ending == 'cease+start':
+                        p.step({'k': 'start'})
+                    else:
+                        for _ in range(4):
+                            w = p.sim.world
+                            if any(c.state == 'connecting' for c in w.connectors):
+                                break
+                            due = [S.TIMER_NAMES.get(getattr(c.func, '__name__', None)) for c in w.due()]
+                            due = [x for x in due if x]
+                            if due:
+                                p.step({'k': 'fire', 't': due[0]})
+                                continue
+                            times = [c.time for c in w.calls if c.time > w.now]
+                            if not times:
+                                break
+                            p.step({'k': 'advance', 'dt': min(times) - w.now})
+                # the late connectionLost of connection 0
+                if p.sim.enabled({'k': 'lost', 'c': 0}):
+                    p.step({'k': 'lost', 'c': 0})
+                if second_stop:
+                    p.step({'k': 'stop'})
+                for c in list(p.sim.world.connectors)[1:]:
+                    if p.sim.enabled({'k': 'connok', 'c': c.id}):
+                        p.step({'k': 'connok', 'c': c.id})
+                        for lab in ('open_ok', 'keepalive'):
+                            if p.sim.enabled({'k': 'chunk', 'c': c.id}):
+                                p.step({'k': 'chunk', 'c': c.id, 'hex': pool[lab].hex()})
+                settle(p)
+                for _ in range(3):
+                    w = p.sim.world
+                    due = [S.TIMER_NAMES.get(getattr(c.func, '__name__', None)) for c in w.due()]
+                    due = [x for x in due if x]
+                    if due:
+                        p.step({'k': 'fire', 't': due[0]})
+                        continue
+                    times = [c.time for c in w.calls if c.time > w.now]
+                    if not times:
+                        break
+                    p.step({'k': 'advance', 'dt': min(times) - w.now})
+                res.stats.case(('late-loss', jdump(conf), ending, second_stop), sample=None)
+                res.stats.hit('late_loss')
 
 
 def two_sessions(driver, res, r, tier):
